@@ -249,6 +249,16 @@ class InstrMixin:
                     self.havoc_all_heap(st)
         return []
 
+    def anchor_text(self, ctx, anchor):
+        """a source-text anchor written for the baseline tree, with purely renamed variables replaced by their new names"""
+        from .baseline import renames
+        ren = renames(ctx['fn'])
+        if ren:
+            import re as _re
+            for old_, new_ in ren.items():
+                anchor = _re.sub(r'(?<![\w.])%s(?!\w)' % _re.escape(old_), new_, anchor)
+        return ''.join(anchor.split())
+
     def check_asserts_at(self, ctx, ins, st):
         """statement-anchored assertions: checked where execution first reaches the source line carrying the anchor"""
         line = self.prog.srcline(ins['pos'])
@@ -256,7 +266,7 @@ class InstrMixin:
             return
         nline = ''.join(line.split())
         for anchor, c in ctx['spec'].asserts_at:
-            if ''.join(anchor.split()) not in nline:
+            if ''.join(anchor.split()) not in nline and self.anchor_text(ctx, anchor) not in nline:
                 continue
             key = (id(c), ctx['frame'], ins['pos'].rsplit(':', 1)[0])
             if key in self.asserted_at:
@@ -275,10 +285,11 @@ class InstrMixin:
         for anchor, g, idx, val, c in ctx['spec'].sets_at:
             after = anchor.startswith('\x00after\x00')
             atext = ''.join(anchor.replace('\x00after\x00', '').split())
+            atext2 = self.anchor_text(ctx, anchor.replace('\x00after\x00', ''))
             hits = []
             for k2, i2 in enumerate(blk['instrs']):
                 l2 = self.prog.srcline(i2['pos']) if i2.get('pos') else None
-                if l2 and atext in ''.join(l2.split()):
+                if l2 and (atext in ''.join(l2.split()) or atext2 in ''.join(l2.split())):
                     hits.append(k2)
             if not hits:
                 continue
